@@ -926,11 +926,13 @@ class Gaussian(Funsor, metaclass=GaussianMeta):
                             f"Cannot sum along a real dimension: {repr(v)}"
                         )
                 else:
+                    # Position among the integer inputs, i.e. the batch dim.
+                    dim = len(old_ints)
                     old_ints[k] = v
                     if k in reduced_vars:
-                        reduced_perm.append(i)
+                        reduced_perm.append(dim)
                     else:
-                        kept_perm.append(i)
+                        kept_perm.append(dim)
                         new_ints[k] = v
             n = len(kept_perm) + len(reduced_perm)
 
